@@ -521,6 +521,9 @@ def post_shard(part, tier, sel=None):
                     for as_param in ((False, True) if ((not quick or dim in (None, 0)) and shape == (2, 2)) else (True,)):
                         for tv in tensors:
                             t = torch.tensor(tv).reshape(shape)
+                            if shape == (2, 2) and sc in (1.0, -2.0):
+                                # same logical values in a non-contiguous (transposed) memory layout: the target of a hook need not be contiguous
+                                t = t.t().contiguous().t()
                             nested = 2 if (dim == -1 and sc == 0.5) else (1 if dim == 0 else 0)  # attribute path depth varies over the grid
                             m = Holder(t, as_param, nested)
                             case = {"hook": "Normalization", "order": p, "scale": sc, "dim": dim, "shape": list(shape), "tensor": tv, "param": as_param, "attr": attr_path(nested)}
